@@ -5,14 +5,17 @@ import json, os
 from fractions import Fraction as Fr
 from core import *
 
-NEEDS = ["History", "HistoryProofs", "Corr"]
+NEEDS = ["History", "HistoryProofs", "HistoryCont", "Corr"]
 
 # ---------------------------------------------------------------------------------------------- impl side (worker)
 def impl(case):
     import numpy as np
     from pyrates.backend.base.base_backend import DDEHistory
     from pyr import fracs
-    dt = {"float64": np.float64, "float32": np.float32, "complex128": np.complex128}[case["dtype"]]
+    dt = {"float64": np.float64, "float32": np.float32, "complex128": np.complex128, "int64": np.int64, "int32": np.int32}[case["dtype"]]
+    # an integer-typed history holds integer records; the interpolant between them is not an integer, so a query may answer in
+    # float64 (numpy's promotion) as well as in the buffer's type - only the VALUES are compared for those
+    ok_dtypes = (np.dtype(dt), np.dtype(np.float64)) if case["dtype"] in ("int64", "int32") else (np.dtype(dt),)
     shape = tuple(case["shape"])
     cplx = case["dtype"] == "complex128"
     def arr(v):
@@ -44,8 +47,11 @@ def impl(case):
             except IndexError:
                 outs.append("refused")
         elif op[0] == "q":
-            r = np.asarray(h(tval(op[1], op[2] if len(op) > 2 else None)))
-            if r.shape != shape or r.dtype != np.dtype(dt):
+            try:
+                r = np.asarray(h(tval(op[1], op[2] if len(op) > 2 else None)))
+            except TypeError as e:        # numpy casting errors (UFuncTypeError) are TypeErrors: a query never raises in the Spec
+                outs.append(["wrong-shape-or-dtype", "raised", type(e).__name__]); continue
+            if r.shape != shape or r.dtype not in ok_dtypes:
                 outs.append(["wrong-shape-or-dtype", str(r.shape), str(r.dtype)])    # Spec: a query returns a state of the history's shape and dtype
             elif cplx:
                 outs.append(fracs(r.real) + fracs(r.imag))
@@ -74,10 +80,12 @@ def gen_case(rng, big=False, wild=False, scaled=False, typed=False):
     k = 1
     for s in shape:
         k *= s
-    dtype = rng.choice(["float64", "complex128"]) if wild else rng.choice(["float64", "float64", "float32", "complex128"])
+    dtype = rng.choice(["float64", "complex128"]) if wild else rng.choice(["float64", "float64", "float32", "complex128", "int64", "int32"])
     if dtype == "complex128":
         k *= 2
     val = (lambda: str(Fr(rng.choice(WILD_VALUES)))) if wild else (lambda: str(Fr(rng.randint(-64, 64), 8)))
+    if dtype in ("int64", "int32"):      # integer state (seed C19-m8): integer records, dyadic query times -> exact float64 interpolants
+        val = lambda: str(Fr(rng.randint(-64, 64)))
     vec = lambda: [val() for _ in range(k)]
     bounded = (not big) and rng.random() < 0.3
     cap = rng.choice([0, 1, 2, 3, 5, 8]) if bounded else None
@@ -254,7 +262,7 @@ def check(ctx):
              shrink=lambda c: shrink(ctx, c),
              show=lambda c: (lambda r: dict(implementation_output=r, model_output=model_outputs(ctx, c, r, "show") if not isinstance(r, dict) else None))(fails(ctx, c, "show")[1]))
     nt = {canon(c) for c in cases if nontrivial(c)}
-    hist = dict(wild_float_data=sum(1 for c in cases if c.get("wild")), large_time_small_spacing=sum(1 for c in cases if c.get("scaled")), typed_time_stamps={ty: sum(1 for c in cases if c.get("t0_type") == ty) for ty in ("f32", "arr32", "f16", "i32", "i64", "int", "longdouble", "arr64", "f64")}, complex128=sum(1 for c in cases if c["dtype"] == "complex128"), bounded=sum(1 for c in cases if c["cap"] is not None), float32=sum(1 for c in cases if c["dtype"] == "float32"),
+    hist = dict(wild_float_data=sum(1 for c in cases if c.get("wild")), large_time_small_spacing=sum(1 for c in cases if c.get("scaled")), typed_time_stamps={ty: sum(1 for c in cases if c.get("t0_type") == ty) for ty in ("f32", "arr32", "f16", "i32", "i64", "int", "longdouble", "arr64", "f64")}, complex128=sum(1 for c in cases if c["dtype"] == "complex128"), bounded=sum(1 for c in cases if c["cap"] is not None), float32=sum(1 for c in cases if c["dtype"] == "float32"), integer_state=sum(1 for c in cases if c["dtype"] in ("int64", "int32")),
                 with_growth=sum(1 for c in cases if c["cap"] is None and sum(1 for o in c["ops"] if o[0] == "u") + 1 > c["init_cap"]),
                 real_capacity_1024=sum(1 for c in cases if c["init_cap"] == 1024 and c["cap"] is None),
                 ops=dict(update=sum(1 for c in cases for o in c["ops"] if o[0] == "u"), query=sum(1 for c in cases for o in c["ops"] if o[0] == "q"),
